@@ -258,6 +258,9 @@ def check_cgls(ctx, rs, sc, CGLS):
     specials.append((A, b, np.array([1.0, -1.0]), 0.5, 0.0, 6, False, "tol-zero"))
     specials.append((A, b, np.array([1.0, -1.0]), 0.5, -1.0, 3, False, "tol-negative"))
     specials.append((A, b, np.array([4.0, 4.0]), 0.0, 0.5, 10, False, "normx-clause"))
+    A3 = np.array([[2.0, 1.0], [1.0, 3.0], [0.0, 1.0]])
+    specials.append((A3, np.array([1.0, 2.0, 3.0]) / 4096, np.zeros(2), 0.0, 1e-3, 10, False, "small-scale"))
+    specials.append((A3, np.array([1.0, 2.0, 3.0]) * 1024, np.zeros(2), 0.25, 1e-3, 10, False, "large-scale"))
     for sp_ in specials:
         A, b, x0, shift, tol, maxit = sp_[:6]
         meta.append(sp_)
@@ -281,7 +284,12 @@ def check_cgls(ctx, rs, sc, CGLS):
             key = f"CGLS:{form}:{cls}"
             op = Aop if form == "mat" else fun_form(Aop)
             solve = lambda k, op=op: CGLS(op, b.copy(), x0.copy(), k, tol, shift).solve()
+            nd = len(ctx.disagreements)
             r = compare_cg(ctx, key, desc, out_mat if form == "mat" else out_fun, solve)
+            for dd in ctx.disagreements[nd:]:
+                # model and implementation differ: run the property's own oracle at this input, to convergence
+                converged_oracle(ctx, dd["key"], desc, A, b, x0, shift,
+                                 lambda k, t, op=op: CGLS(op, b.copy(), x0.copy(), k, t, shift).solve())
             if r is None:
                 continue
             ok, xi, ki, mod = r
@@ -342,6 +350,33 @@ def oracle_cgls(ctx, key, desc, A, b, x0, shift, tol, maxit, xi, ki, mode):
                 ctx.fail(key + ":solution", desc, xs.tolist(), xi.tolist(), "not the solution of the (shifted) normal equations")
 
 
+def converged_oracle(ctx, key, desc, A, b, x0, shift, solve2):
+    """the property itself at this input: run to convergence (maxit 200, tol 1e-10) and test the normal equations"""
+    try:
+        with quiet():
+            x, k = solve2(200, 1e-10)
+    except Exception as e:
+        ctx.fail(key, desc, "solution of the normal equations", repr(e)[:100], "solver raises on a well-posed problem")
+        return
+    x = np.asarray(x, dtype=float)
+    s = A.T @ (b - A @ x) - shift * x
+    scale = 1 + np.linalg.norm(A.T @ (b - A @ x0) - shift * x0) + np.linalg.norm(A.T @ b)
+    if shift >= 0 and (not np.all(np.isfinite(x)) or np.linalg.norm(s) > 1e-7 * scale):
+        ctx.fail(key, desc, "residual of (A^T A + shift I) x = A^T b ~ 0 when run to convergence", float(np.linalg.norm(s)),
+                 "run to convergence, the returned point does not solve the (shifted) normal equations")
+        return
+    # and at the case's own tolerance: stopping before maxit by the first clause must mean the stated relative accuracy
+    tol, maxit = desc["tol"], desc["maxit"]
+    if shift >= 0 and tol >= 0:
+        with quiet():
+            x, k = solve2(maxit, tol)
+        x = np.asarray(x, dtype=float)
+        ns = np.linalg.norm(A.T @ (b - A @ x) - shift * x); ns0 = np.linalg.norm(A.T @ (b - A @ x0) - shift * x0)
+        if k < maxit and np.linalg.norm(x) * tol < 1 - 1e-12 and ns > tol * ns0 * (1 + 1e-6) + 1e-12 * (1 + ns0):
+            ctx.fail(key, desc, f"|A^T(b-Ax)-shift x| <= tol*|s0| = {tol * ns0}", float(ns),
+                     "stopped by the convergence flag, but the (shifted) normal equations do not hold to the stated relative tolerance")
+
+
 # ----------------------------------------------------------------------------- PCGLS
 def check_pcgls(ctx, rs, sc, PCGLS, cuqi):
     N = 50 * sc
@@ -383,7 +418,11 @@ def check_pcgls(ctx, rs, sc, PCGLS, cuqi):
                     # sizes are consistent and P is invertible: the property demands a solution
                     ctx.fail(f"PCGLS:{form}:dim{n if n == 1 else 'N'}:raises", desc, "solution of the normal equations", repr(e)[:120],
                              "PCGLS raises on a well-posed problem")
+                nd = len(ctx.disagreements)
                 r = compare_cg(ctx, key, desc, outs[2 * idx + (0 if form == "mat" else 1)], solve, refused)
+                for dd in ctx.disagreements[nd:]:
+                    converged_oracle(ctx, dd["key"], desc, A, b, x0, 0.0,
+                                     lambda k, t, op=op: PCGLS(op, b.copy(), x0.copy(), Psp, k, t, shift).solve())
                 if r is None:
                     continue
                 ok, xi, ki, mod = r
